@@ -22,14 +22,20 @@ import (
 )
 
 type request struct {
-	Op   string `json:"op"`   // "msg" | "addr" | "date"
-	Data []byte `json:"data"` // base64 by encoding/json
-	Full bool   `json:"full"` // return texts, section tree, ct table, header keys
+	Op    string  `json:"op"`              // "msg" | "addr" | "date"
+	Data  []byte  `json:"data"`            // base64 by encoding/json
+	Full  bool    `json:"full"`            // return texts, section tree, ct table, header keys
+	Paths [][]int `json:"paths,omitempty"` // Section.Part(path...) to resolve
 }
 
 type secNode struct {
 	H, B, E  int
 	Children []*secNode `json:"c,omitempty"`
+}
+
+type partPos struct {
+	OK      bool
+	H, B, E int
 }
 
 type ctEntry struct {
@@ -52,6 +58,7 @@ type response struct {
 	HdrErr    bool      `json:"hdrerr"`
 	HdrKeys   [][]byte  `json:"hdrkeys,omitempty"`
 	PartErrs  int       `json:"parterrs"`
+	PartPos   []partPos `json:"partpos,omitempty"`
 	AddrOK    bool      `json:"addrok"`
 	AddrN     int       `json:"addrn"`
 }
@@ -163,6 +170,16 @@ func handleMsg(req request) response {
 	}
 	if resp.Parts <= 200 && len(lit) <= 1<<16 {
 		parts(root, tree, nil)
+	}
+	for _, path := range req.Paths {
+		p, err := root.Part(path...)
+		if err != nil || p == nil {
+			resp.PartPos = append(resp.PartPos, partPos{})
+			continue
+		}
+		h := offsetIn(lit, p.Header())
+		b := offsetIn(lit, p.Body())
+		resp.PartPos = append(resp.PartPos, partPos{OK: true, H: h, B: b, E: b + len(p.Body())})
 	}
 	// header of the message
 	hdr, _ := rfc822.Split(lit)
